@@ -733,6 +733,7 @@ pub fn to_info(prop: &str, res: Result<Flags, Fail>) -> CaseResult {
                 "C06" => fl.transfers > 0 || fl.casts > 0,
                 "C07" => has_ctx && (fl.ctx_derived > 0 || fl.borrowed_children > 0),
                 "C13" => fl.int_result_calls > 0,
+                "C04" => fl.nmeth >= 2,
                 _ => true,
             };
             Ok(Info::new(nt)
@@ -752,7 +753,97 @@ pub fn rule_for(prop: &str) -> &'static str {
         "C02" => "same generated programs; the oracle parts that concern values: argument digests seen by the implementor, (address, length) of every reference-like argument as seen by the implementor vs as passed, returned values vs values computed by the direct call, address identity of borrowed returns vs what the implementor lent, writes through &mut / &mut [T] visible in the caller's buffer, callback sinks and iterator remainders. Non-trivial = the case carries a wrapped shape with a non-default value (non-empty slice, Some, Err, non-ASCII string, write through &mut)",
         "C06" => "same generated programs with the lifecycle oracle: every implementor, child and payload token is dropped exactly once by the end of the case, by-reference containers have not dropped what they borrow when the object is gone, allocation window balanced with matching layouts. Non-trivial = the sequence contains an ownership transfer (consuming call, wrapped owned/borrowed return, cast)",
         "C07" => "same generated programs on containers that carry a context (CArc<payload> or a counting Clone context): after every call the context count equals start + object + live derived objects, and returns to the start value when everything derived is dropped. Non-trivial = a derived object (wrapped return) was obtained from an object that carries a context",
+        "C04" => "same generated programs; for every (definition, container kind) case: the concrete object is built, its size/alignment is compared with the opaque form and into_opaque must preserve every byte; the static vtable obtained through the public accessor is read as raw words: its size must be exactly one pointer per exported method and word i must equal the public getter of the method declared at position i; groups: vtable pointers read from the raw words of the group object must sit at mandatory-by-name then optional-by-name positions (null exactly when not enabled), followed by the container (instance, context), with no extra field. Non-trivial = at least two methods / two vtables (so that an order exists to be wrong)",
         "C13" => "same generated programs restricted to the integer-result productions (trait-level and method-level int_result, no_int_result overrides, io::Error / () / user IntError, unit and non-unit payloads, wrapped objects as payloads): the decoded Result must equal the direct call's Result. Non-trivial = at least one int_result method was called",
         _ => "generated programs",
     }
+}
+
+// ---------------------------------------------------------------------------------------------
+// C04 oracles
+
+/// Opaque and concrete form: same size, same alignment, and the conversion preserves every byte.
+pub fn into_opaque_checked<C: cglue::trait_group::Opaquable>(c: C) -> Result<C::OpaqueTarget, Fail> {
+    use std::mem::{align_of, size_of};
+    let name = std::any::type_name::<C>();
+    if size_of::<C>() != size_of::<C::OpaqueTarget>() || align_of::<C>() != align_of::<C::OpaqueTarget>() {
+        return Err(Fail::new(
+            "C04:opaque-size",
+            format!("opaque and concrete form differ in size/alignment: ({}, {}) vs ({}, {}) for {}", size_of::<C>(), align_of::<C>(), size_of::<C::OpaqueTarget>(), align_of::<C::OpaqueTarget>(), &name[..name.len().min(120)]),
+        ));
+    }
+    let n = size_of::<C>();
+    let before: Vec<u8> = verifkit::alloc::exempt(|| unsafe { std::slice::from_raw_parts(&c as *const C as *const u8, n).to_vec() });
+    let o = c.into_opaque();
+    let same = unsafe { std::slice::from_raw_parts(&o as *const C::OpaqueTarget as *const u8, n) } == &before[..];
+    verifkit::alloc::exempt(|| drop(before));
+    if !same {
+        std::mem::forget(o);
+        return Err(Fail::new("C04:opaque-bits", format!("into_opaque changed the bit pattern of {}", &name[..name.len().min(120)])));
+    }
+    Ok(o)
+}
+
+/// A vtable is exactly one function pointer per exported method, in declaration order.
+pub fn vtable_words_check(words: *const usize, size: usize, getters: &[usize], tname: &str) -> Result<(), Fail> {
+    let n = getters.len();
+    if size != n * std::mem::size_of::<usize>() {
+        return Err(Fail::new(
+            "C04:vtable-size",
+            format!("vtable of {tname} occupies {size} bytes, {n} exported methods need {} (one function pointer each, nothing else)", n * std::mem::size_of::<usize>()),
+        ));
+    }
+    let w = unsafe { std::slice::from_raw_parts(words, n) };
+    for i in 0..n {
+        if w[i] != getters[i] {
+            let at = w.iter().position(|x| *x == getters[i]);
+            return Err(Fail::new(
+                "C04:vtable-order",
+                format!("vtable of {tname}: word {i} is not the entry of the method declared at position {i} (that entry sits at word {:?})", at),
+            ));
+        }
+    }
+    Ok(())
+}
+
+pub fn vt_ptr<V, G: cglue::trait_group::GetVtblBase<V>>(g: &G) -> usize {
+    g.get_vtbl_base() as *const V as usize
+}
+
+/// After the vtable pointers comes the container: instance, then context; nothing else.
+#[allow(clippy::too_many_arguments)]
+pub fn group_container_check(base: usize, total: usize, n_vt: usize, cont: usize, cont_size: usize, inst_ctx: (usize, usize), inst_size: usize, name: &str) -> Result<(), Fail> {
+    let w = std::mem::size_of::<usize>();
+    if cont != base + n_vt * w {
+        return Err(Fail::new("C04:group-container", format!("group {name}: the container starts at offset {}, expected {} (right after {n_vt} vtable pointers)", cont.wrapping_sub(base), n_vt * w)));
+    }
+    if total != n_vt * w + cont_size {
+        return Err(Fail::new("C04:group-size", format!("group {name}: size {total} != {n_vt} vtable pointers + container ({cont_size} bytes): an extra field")));
+    }
+    let first = unsafe { *(cont as *const usize) };
+    if first != inst_ctx.0 {
+        return Err(Fail::new("C04:group-container", format!("group {name}: the first word of the container is not the instance pointer")));
+    }
+    if inst_ctx.1 != cont + inst_size {
+        return Err(Fail::new("C04:group-container", format!("group {name}: the context sits at offset {} of the container, expected {inst_size} (right after the instance handle)", inst_ctx.1.wrapping_sub(cont))));
+    }
+    Ok(())
+}
+
+/// the first `n` machine words of a value (vtable pointer area of a group object)
+pub fn raw_words<T>(t: &T, n: usize) -> [usize; 8] {
+    let mut out = [0usize; 8];
+    let n = n.min(8).min(std::mem::size_of::<T>() / std::mem::size_of::<usize>());
+    for (i, o) in out.iter_mut().enumerate().take(n) {
+        *o = unsafe { *(t as *const T as *const usize).add(i) };
+    }
+    out
+}
+
+/// the cast ("With") form of a group must have the very layout of the base group
+pub fn same_words(a: &[usize; 8], b: &[usize; 8], group: &str, what: &str) -> Result<(), Fail> {
+    if a != b {
+        return Err(Fail::new("C04:with-layout", format!("group {group}: after {what} the vtable-pointer words of the object are {:x?}, before they were {:x?} (the cast form does not have the layout of the base group)", b, a)));
+    }
+    Ok(())
 }
